@@ -603,3 +603,57 @@ func AP(sl interface{}, site int32) interface{} {
 	s.access(p, uintptr(rv.Cap()-rv.Len())*es, true, site)
 	return sl
 }
+
+// ---- sync.Pool ----
+//
+// A pool is a source of nondeterminism of its own (per-P caches, emptied by the
+// garbage collector). Under simulation it is a plain LIFO stack owned by the
+// Sim: what Get returns is a function of the schedule alone. Put happens-before
+// the Get that returns the same item (per item, as the memory model says).
+
+type poolItem struct {
+	v  interface{}
+	vc []uint64
+}
+
+// PoolGet replaces p.Get().
+func PoolGet(p *sync.Pool, site int32) interface{} {
+	s := S
+	if s == nil {
+		return p.Get()
+	}
+	if s.thr != nil && s.thr.ts != nil {
+		s.yield(site, yLock)
+	}
+	st := s.pools[p]
+	if n := len(st); n > 0 {
+		it := st[n-1]
+		s.pools[p] = st[:n-1]
+		if _, vc := s.curVC(); vc != nil && it.vc != nil {
+			join(vc, it.vc)
+		}
+		return it.v
+	}
+	if p.New != nil {
+		return p.New()
+	}
+	return nil
+}
+
+// PoolPut replaces p.Put(v).
+func PoolPut(p *sync.Pool, site int32, v interface{}) {
+	s := S
+	if s == nil {
+		p.Put(v)
+		return
+	}
+	it := poolItem{v: v}
+	if tid, vc := s.curVC(); vc != nil {
+		it.vc = append([]uint64(nil), vc...)
+		vc[tid]++
+	}
+	if s.pools == nil {
+		s.pools = map[*sync.Pool][]poolItem{}
+	}
+	s.pools[p] = append(s.pools[p], it)
+}
